@@ -97,6 +97,8 @@ class Watchdog:
         t.start()
 
     def arm(self, label, limit_s=None):
+        if _os.environ.get("XSV_TRACE"):
+            _sys.stderr.write("%.1f arm %s\n" % (_time.time(), label))
         with self._lock:
             self._label = label
             self._deadline = _time.time() + (limit_s or self.limit)
